@@ -107,8 +107,10 @@ def _c13_shard(shard) -> Dict[str, Any]:
             l = rn.link_helper.links[lid]
             line = h3.h3_line(l.start, l.end)
             snaps.update(line[:: max(1, len(line) // 12)])
-            for c12 in h3.k_ring(h3.h3_to_parent(l.start, 12), 2):
-                snaps.add(h3.h3_to_center_child(c12, 15))
+            res = h3.h3_get_resolution(l.start)  # the network's own location resolution
+            coarse = max(res - 3, 0)
+            for c12 in h3.k_ring(h3.h3_to_parent(l.start, coarse), 2):
+                snaps.add(h3.h3_to_center_child(c12, res))
         snaps = sorted(snaps)
     for i, (o, d) in enumerate(pairs):
         if i % nparts != part:
@@ -154,6 +156,8 @@ def c13_networks(quick: bool):
         (("ring",), "all_positions"),
         (("deadend",), "all_positions"),
         (("parallel",), "all_positions"),
+        (("connector", 12), "all_positions"),  # sim_h3_resolution 12: a link whose two junctions share one cell
+        (("connector", 15), "all_positions"),
     ]
     nets.append((("denver",), "links"))
     return nets
@@ -219,9 +223,18 @@ def _c14_shard(shard) -> Dict[str, Any]:
             continue
         dist = dijkstra(g, u)
         lo = rn.link_from_link_id(in_link[u])
+        if lo is None:
+            # a street of the input graph is unknown to the network built from it: no route can start there
+            out["nfindings"] += 1
+            if len(out["findings"]) < 1:
+                out["findings"].append(("street_unknown_to_network", f"link {in_link[u]} of the input graph is not in the network's link table",
+                                        {"network": list(spec), "from_node": u, "to_node": u, "graphs_routed_earlier_in_this_process": [list(e) for e in earlier]}))
+            continue
         o = EntityPosition(lo.link_id, lo.start)
         for v in nodes:
             ld = rn.link_from_link_id(out_link[v])
+            if ld is None:
+                continue  # reported when v is the origin
             d = EntityPosition(ld.link_id, ld.end)
             route = rn.route(o, d)
             out["pairs"] += 1
@@ -257,7 +270,7 @@ def c14_networks(quick: bool):
         nets.append(("grid", tuple(bits), (3, 1, 1, 3, 1, 3, 1), ()))
     for bits in itertools.product((10, 100), repeat=7):
         nets.append(("grid", tuple(bits), (1,) * 7, ()))
-    nets += [("ring",), ("deadend",), ("parallel",), ("grid", (10, 100, 40, 10, 100, 40, 10), (1, 1.5, 1, 1, 1.5, 1, 1), (1, 2))]
+    nets += [("ring",), ("deadend",), ("parallel",), ("connector", 12), ("connector", 15), ("grid", (10, 100, 40, 10, 100, 40, 10), (1, 1.5, 1, 1, 1.5, 1, 1), (1, 2))]
     if not quick:
         # three speed classes on every street (3^7 assignments) for both length patterns, and the two-speed assignments again
         # with two one-way streets (the graph stays strongly connected)
